@@ -3,6 +3,8 @@
 mod mt_executor;
 mod st_executor;
 mod task;
+#[cfg(feature = "verif-hooks")]
+pub use task::verif as task_verif;
 
 use std::any::Any;
 use std::future::Future;
